@@ -501,6 +501,11 @@ func (css *Consensus) batchWorker() {
 			// Commit
 			if err := css.batchingState.Commit(css.ctx); err != nil {
 				logger.Errorf("error commiting batch after reaching max age: %s", err)
+				// The batch is still pending and the timer has
+				// expired: re-arm it so that the batch is
+				// retried (and so that a later size-triggered
+				// commit does not block draining the timer).
+				batchTimer.Reset(maxAge)
 				continue
 			}
 			logger.Debugf("batch commit (max age): %d items", batchCurSize)
